@@ -251,7 +251,7 @@ def floor_instant(inst):
     
 def ceil_instant(inst):
     dt = inst.dt
-    return Instant(datetime(dt.year, dt.month, dt.day+1))
+    return Instant(datetime(dt.year, dt.month, dt.day) + timedelta(days=1))
 
 def instant_minus_instant(i1, i2):
     return Quantity((i1.dt-i2.dt).total_seconds(), SECONDS)
